@@ -226,11 +226,15 @@ def rt_inline(depth=3):
         st.tuples(st.sampled_from(TEMPLATE_NAMES), plain).map(
             lambda t: "{{" + t[0] + "|" + t[1] + "}}"),
     )
+    # arguments may be empty ({{t||x}}, {{#if:|}}, {{lc:}}): an empty
+    # argument is still an argument
+    targ_e = st.one_of(targ, targ, targ, st.just(""))
     template = st.tuples(st.sampled_from(TEMPLATE_NAMES),
-                         st.lists(targ, max_size=3)).map(
+                         st.lists(targ_e, max_size=3)).map(
         lambda t: "{{" + "|".join([t[0]] + t[1]) + "}}")
-    pfn = st.tuples(st.sampled_from(["#if", "#ifeq", "lc", "#expr"]),
-                    st.lists(targ, min_size=1, max_size=3)).map(
+    pfn = st.tuples(st.sampled_from(["#if", "#ifeq", "lc", "#expr",
+                                     "#switch"]),
+                    st.lists(targ_e, min_size=1, max_size=3)).map(
         lambda t: "{{" + t[0] + ":" + "|".join(t[1]) + "}}")
     span = st.tuples(st.sampled_from(PAIRED_INLINE_TAGS), attrs(), plain,
                      st.integers(0, 2)).map(
